@@ -3,7 +3,7 @@ import ast
 
 from .core import AnalysisError
 from .cfg import cfg_of
-from .exprs import dotted, unparse, walk_no_nested, root_attr, ekey, names_loaded
+from .exprs import dotted, unparse, walk_no_nested, root_attr, ekey, names_loaded, aug_nodes
 
 # ---------------------------------------------------------------------------
 # A1  the three classifiers of a prior entry agree on every storable category
@@ -298,12 +298,19 @@ def _counter_vars(stmts):
 # ---------------------------------------------------------------------------
 
 def _boundary_tests(func):
-    """Test nodes of func that decide whether exploration samples are discarded."""
+    """Test nodes of func that decide whether exploration samples are discarded, with the
+    label of the discarding branch and the atoms that hold on it.
+    -> cfg, [(node, discard label, {atom texts})]"""
+    from .cfg import edge_facts
     cfg = cfg_of(func)
     out = []
     for t in cfg.nodes:
         if t.kind == 'test' and '_discard_exploration' in unparse(t.expr):
-            out.append(t)
+            for lab in (True, False):
+                facts = edge_facts(t.expr, lab)
+                if facts and all(tr is True for _, _, tr in facts) and any(
+                        '_discard_exploration' in tx for _, tx, _ in facts):
+                    out.append((t, lab, {tx for _, tx, _ in facts}))
     return cfg, out
 
 
@@ -328,13 +335,13 @@ def rule_A2_A6(ctx, rid2='A2', rid6='A6'):
     cu, tu = _boundary_tests(usi)
     ctx.require(len(tp) == 1 and len(tu) == 1, 'exploration-boundary tests not found '
                 '(posterior %d, update_shell_info %d)' % (len(tp), len(tu)))
-    sp, su = _conj_set(tp[0].expr), _conj_set(tu[0].expr)
-    ctx.ob(rid2, 'boundary-predicate', sp == su, post.where(tp[0].ast),
+    sp, su = tp[0][2], tu[0][2]
+    ctx.ob(rid2, 'boundary-predicate', sp == su, post.where(tp[0][0].ast),
            'both use the predicate %s' % sorted(sp) if sp == su else
            'posterior() discards under %s but the statistics under %s: weights and volumes '
            'describe different sample sets' % (sorted(sp), sorted(su)))
     want = {'self._discard_exploration', 'self.explored'}
-    ctx.ob(rid2, 'boundary-predicate-content', sp == want, post.where(tp[0].ast),
+    ctx.ob(rid2, 'boundary-predicate-content', sp == want, post.where(tp[0][0].ast),
            'the predicate is `_discard_exploration and explored`' if sp == want else
            'the predicate is %s' % sorted(sp))
 
@@ -354,19 +361,20 @@ def rule_A2_A6(ctx, rid2='A2', rid6='A6'):
                         sub.value.id == func.self_name:
                     attrs.add(sub.attr)
         return attrs
-    ap = branch_uses(cp, tp[0], True, post)
-    au = branch_uses(cu, tu[0], True, usi)
-    ctx.ob(rid2, 'boundary-rows(posterior)', 'shell_end_exp' in ap, post.where(tp[0].ast),
+    ap = branch_uses(cp, tp[0][0], tp[0][1], post)
+    au = branch_uses(cu, tu[0][0], tu[0][1], usi)
+    ctx.ob(rid2, 'boundary-rows(posterior)', 'shell_end_exp' in ap, post.where(tp[0][0].ast),
            'posterior() starts each shell at shell_end_exp when discarding')
     ctx.ob(rid6, 'Sampler.update_shell_info:applied-together', {
-        'shell_end_exp', 'shell_n_sample_exp'} <= au, usi.where(tu[0].ast),
+        'shell_end_exp', 'shell_n_sample_exp'} <= au, usi.where(tu[0][0].ast),
            'the discarding branch slices rows by shell_end_exp and subtracts shell_n_sample_exp'
            if {'shell_end_exp', 'shell_n_sample_exp'} <= au else
            'the discarding branch uses %s only: rows and proposal counts refer to different '
            'phases' % sorted(au & {'shell_end_exp', 'shell_n_sample_exp'}))
-    ape = branch_uses(cp, tp[0], False, post) | branch_uses(cu, tu[0], False, usi)
+    ape = branch_uses(cp, tp[0][0], not tp[0][1], post) | \
+        branch_uses(cu, tu[0][0], not tu[0][1], usi)
     ctx.ob(rid6, 'boundary-not-applied-when-keeping', not (ape & {
-        'shell_end_exp', 'shell_n_sample_exp'}), usi.where(tu[0].ast),
+        'shell_end_exp', 'shell_n_sample_exp'}), usi.where(tu[0][0].ast),
            'the keeping branch does not use the exploration boundaries')
     # the slice in update_shell_info uses the start selected above, for this shell
     run = prog.func('Sampler.run')
@@ -423,8 +431,11 @@ def rule_A3(ctx, rid='A3'):
         if not isinstance(lp, ast.For) or not isinstance(lp.target, ast.Name):
             continue
         w = lp.target.id
-        for st in lp.body:
-            if isinstance(st, ast.AugAssign) and isinstance(st.op, ast.Add):
+        from .exprs import as_aug
+        for st0 in lp.body:
+            r_ = as_aug(st0)
+            if r_ is not None and isinstance(r_[1], ast.Add):
+                st = ast.AugAssign(target=r_[0], op=r_[1], value=r_[2])
                 tp = dotted(st.target)
                 vp = dotted(st.value)
                 if tp and vp and tp.startswith('self.') and vp.startswith(w + '.'):
@@ -581,8 +592,7 @@ def rule_A5(ctx, rid='A5'):
                 st.value.slice.operand.id in rep_names and cfg.has(st):
             nid = cfg.node_of(st).id
             if all(cfg.must_pass(cfg.node_of(c).id, x.id, {nid}) for c in ch
-                   for x in cfg.nodes if x.kind == 'stmt' and isinstance(x.ast, ast.AugAssign)
-                   and 'len(' in unparse(x.ast.value)):
+                   for x in aug_nodes(cfg) if 'len(' in unparse(x.ast.value)):
                 okr = True
     ctx.ob(rid, 'Sampler.sample_shell:replaced-proposals-removed', okr, f.where(),
            'proposals replaced by transfer candidates are removed before the rows are counted '
@@ -616,7 +626,7 @@ def rule_Q3(ctx, rid='Q3'):
     prog = ctx.program
     f = prog.func('Sampler.add_samples')
     cfg = cfg_of(f)
-    augs = [n for n in cfg.nodes if n.kind == 'stmt' and isinstance(n.ast, ast.AugAssign) and
+    augs = [n for n in aug_nodes(cfg) if
             root_attr(n.ast.target, f.self_name) and
             root_attr(n.ast.target, f.self_name)[0] == 'shell_n_sample']
     ctx.require(len(augs) == 1, 'add_samples: update of shell_n_sample not found')
